@@ -476,6 +476,43 @@ def capa_float_stream(ctx, count):
 # would pass them.  Here the detectors run as a user would run them and the property-level re-checks (_pelt_spec, _mw_spec, _sbs_spec, _cbs_spec -- the
 # Python twins of the models, on the scorer's own values) decide.
 # ------------------------------------------------------------------------------------------------------------------
+def _scorer_vs_definition(ctx, det, kind, sc, Xn, m=1):
+    """on a LONG series the built-in scorer's values themselves are compared with the definition computed from the rows (segment means / sums of squares): cuts spread over
+    the whole series, in particular across multiples of 256 / 512 / 1024 rows"""
+    from harness import direct
+    rng = ctx.rng
+    n = len(Xn)
+    marks = [b for b in (256, 512, 1024, 2048) if b < n - 2 * m - 2]
+    for _ in range(24):
+        if marks and rng.random() < 0.6:
+            b = rng.choice(marks)
+            s = rng.randint(max(0, b - 150), b - m - 1)
+            e = rng.randint(b + m + 1, min(n, b + 150))
+        else:
+            s = rng.randint(0, n - 2 * m - 2)
+            e = rng.randint(s + 2 * m + 1, min(n, s + 400))
+        if kind == "l2cost":
+            cut, want = [s, e], direct.cost_direct("l2", None, Xn, s, e)
+        elif kind == "l2saving":
+            cut, want = [s, e], direct.l2saving_direct(Xn, s, e)
+        elif kind == "cusum":
+            k = rng.randint(s + m, e - m)
+            cut, want = [s, k, e], direct.cusum_direct(Xn, s, k, e)
+        else:
+            if e - s < 3 * m + 3:
+                continue
+            a = rng.randint(s + 1, e - m - 2)
+            b_ = rng.randint(a + m, e - 1)
+            if (a - s) + (e - b_) < m:
+                continue
+            cut, want = [s, a, b_, e], direct.local_direct("l2", Xn, s, a, b_, e)
+        got = sc.evaluate(np.asarray([cut]))[0]
+        if not direct.close(got, want, scale=float(np.sum(np.asarray(Xn)[cut[0]:cut[-1]] ** 2)) + 1.0):
+            ctx.violation(f"{det}: on a {n} x {Xn.shape[1]} series the built-in scorer gives {np.asarray(got).tolist()[:4]} on the cut {cut}, the definition computed from the rows gives "
+                          f"{np.asarray(want).tolist()[:4]}", {"detector": det, "scorer": kind, "n": n, "p": int(Xn.shape[1]), "cut": cut}, {"what": "default-scale-scorer", "detector": det})
+            return
+
+
 def _long_series(rng, n, p):
     X = np.asarray([[rng.gauss(0, 1) for _ in range(p)] for _ in range(n)])
     k = max(1, n // 150)
@@ -489,14 +526,24 @@ def pelt_default_scale_stream(ctx, count, n_range=(300, 700)):
     from skchange.costs import L2Cost
     rng = ctx.rng
     for it in range(count):
-        n, p = rng.randint(*n_range), rng.choice([1, 3, 10])
+        n, p = (rng.randint(*n_range) if it else rng.randint(560, 700)), rng.choice([1, 3, 10])
         Xn = _long_series(rng, n, p)
+        if it % 2 == 1:
+            # few changes and long flat stretches (hundreds of admissible starts stay alive), then a spike and a dip right before a level shift, at both parities
+            n, p = rng.randint(420, 520), 1
+            Xn = np.asarray([[rng.gauss(0, 1)] for _ in range(n)])
+            Xn[80:] += 3.0
+            t0 = rng.randint(290, 330)
+            Xn[t0] += 7.0
+            Xn[t0 + 1] -= 7.0
+            Xn[t0 + 2:] += 3.0
         X = pd.DataFrame(Xn)
         d = PELT().fit(X)
         m, pen = d.min_segment_length, float(d.penalty_)
         scores = d.transform_scores(X).to_numpy().reshape(-1)
         cpts = [int(v) for v in d.predict(X)["ilocs"]]
         sc = L2Cost().fit(Xn)
+        _scorer_vs_definition(ctx, "PELT", "l2cost", sc, Xn, m)
         tab = [[0.0] * (n + 1) for _ in range(n + 1)]
         cuts = np.asarray([(s, e) for s in range(n + 1) for e in range(s + m, n + 1)])
         for (s, e), v in zip(cuts, _agg(sc, cuts)):
@@ -540,15 +587,19 @@ def mw_default_scale_stream(ctx, count, n_range=(400, 3000)):
     from skchange.change_scores import CUSUM
     rng = ctx.rng
     for it in range(count):
-        n, p = rng.randint(*n_range), rng.choice([1, 3, 10])
+        n, p = (rng.randint(*n_range) if it else rng.randint(1100, 1600)), rng.choice([1, 3, 10])
         Xn = _long_series(rng, n, p)
         X = pd.DataFrame(Xn)
         d = MovingWindow().fit(X)
+        if it % 3 == 2:
+            d.threshold_ = 0.15 * float(d.threshold_)          # a low threshold on a long series: dozens of runs above it
         b, mdi = d.bandwidth, d.min_detection_interval
         scores = d.transform_scores(X).to_numpy().reshape(-1)
         cpts = [int(v) for v in d.predict(X)["ilocs"]]
         ts_ = list(range(b, n - b + 1))
-        vals = _agg(CUSUM().fit(Xn), [(t - b, t, t + b) for t in ts_])
+        sc_ = CUSUM().fit(Xn)
+        _scorer_vs_definition(ctx, "MovingWindow", "cusum", sc_, Xn, 1)
+        vals = _agg(sc_, [(t - b, t, t + b) for t in ts_])
         row = [0.0] * (n + 1)
         for t, v in zip(ts_, vals):
             row[t] = float(v)
@@ -568,7 +619,7 @@ def sbs_default_scale_stream(ctx, count, n_range=(300, 1200)):
     from skchange.change_scores import CUSUM
     rng = ctx.rng
     for it in range(count):
-        n, p = rng.randint(*n_range), rng.choice([1, 3, 10])
+        n, p = (rng.randint(*n_range) if it else rng.randint(1100, 1500)), rng.choice([1, 3, 10])
         Xn = _long_series(rng, n, p)
         X = pd.DataFrame(Xn)
         d = SeededBinarySegmentation().fit(X)
@@ -577,6 +628,7 @@ def sbs_default_scale_stream(ctx, count, n_range=(300, 1200)):
         tabl = d.scores
         ivs = [(int(a), int(b_)) for a, b_ in zip(tabl["start"], tabl["end"])]
         sc = CUSUM().fit(Xn)
+        _scorer_vs_definition(ctx, "SeededBinarySegmentation", "cusum", sc, Xn, m)
         rows = []
         for (s, e) in ivs:
             ks = list(range(s + m, e - m + 1))
@@ -596,16 +648,16 @@ def sbs_default_scale_stream(ctx, count, n_range=(300, 1200)):
                           {"what": "default-scale-spec", "detector": "SeededBinarySegmentation"})
 
 
-def cbs_default_scale_stream(ctx, count, n_range=(90, 140)):
+def cbs_default_scale_stream(ctx, count, n_range=(150, 220)):
     from skchange.anomaly_detectors import CircularBinarySegmentation
     from skchange.anomaly_scores import LocalAnomalyScore
     from skchange.costs import L2Cost
     rng = ctx.rng
     for it in range(count):
-        n, p = rng.randint(*n_range), rng.choice([1, 3])
+        n, p = (rng.randint(*n_range) if it else rng.randint(262, 290)), (rng.choice([1, 3]) if it else 1)
         Xn = np.asarray([[rng.gauss(0, 1) for _ in range(p)] for _ in range(n)])
-        a = rng.randint(10, n - 40)
-        Xn[a:a + rng.randint(6, 25)] += rng.choice([4.0, -5.0])
+        a = rng.randint(10, n - 40) if it % 2 else rng.randint(20, 45)
+        Xn[a:(a + rng.randint(6, 25)) if it % 2 else (n - rng.randint(12, 40))] += rng.choice([4.0, -5.0])      # a short event, or one that spans most of the series
         X = pd.DataFrame(Xn)
         d = CircularBinarySegmentation().fit(X)
         m = d.min_segment_length
@@ -614,6 +666,7 @@ def cbs_default_scale_stream(ctx, count, n_range=(90, 140)):
         tabl = d.scores
         ivs = [(int(a_), int(b_)) for a_, b_ in zip(tabl["interval_start"], tabl["interval_end"])]
         sc = LocalAnomalyScore(L2Cost()).fit(Xn)
+        _scorer_vs_definition(ctx, "CircularBinarySegmentation", "local", sc, Xn, m)
         rows = []
         for (s, e) in ivs:
             cands = model_anomaly_intervals(s, e, m)
